@@ -1118,10 +1118,15 @@ pub(crate) fn interpret_isodatetime_offset(
     };
 
     // 2. Let isoDateTime be CombineISODateAndTimeRecord(isoDate, time).
-    // TODO: Deal with offsetBehavior == wall.
-    match (is_exact, offset_nanos) {
+    // NOTE: offsetBehaviour exact (a `Z` designator) carries no offset value: the offset is 0.
+    let offset_nanos = if is_exact {
+        Some(offset_nanos.unwrap_or(0))
+    } else {
+        offset_nanos
+    };
+    match offset_nanos {
         // 4. If offsetBehaviour is exact, or offsetBehaviour is option and offsetOption is use, then
-        (true, Some(offset)) if offset_option == OffsetDisambiguation::Use => {
+        Some(offset) if is_exact || offset_option == OffsetDisambiguation::Use => {
             // a. Let balanced be BalanceISODateTime(isoDate.[[Year]], isoDate.[[Month]],
             // isoDate.[[Day]], time.[[Hour]], time.[[Minute]], time.[[Second]], time.[[Millisecond]],
             // time.[[Microsecond]], time.[[Nanosecond]] - offsetNanoseconds).
@@ -1147,7 +1152,7 @@ pub(crate) fn interpret_isodatetime_offset(
         }
         // 5. Assert: offsetBehaviour is option.
         // 6. Assert: offsetOption is prefer or reject.
-        (_, Some(offset))
+        Some(offset)
             if offset_option == OffsetDisambiguation::Prefer
                 || offset_option == OffsetDisambiguation::Reject =>
         {
